@@ -2,6 +2,7 @@ package c04
 
 import (
 	"bytes"
+	"context"
 	"encoding/hex"
 	"errors"
 	"fmt"
@@ -414,6 +415,13 @@ func runHistory1(r *sink, rs runSpec, bucketPrefix string) error {
 		// variant 1: bulks of one transaction; 2: one bulk of 8 (indexers paused); 3: bulks of 3, free schedule
 		script = directedScript()
 		g.sc = probeCfg([]int{1, 8, 3}[(rs.directed-1)%3], true)
+		if rs.directed > 6 {
+			// 7, 8: a key of maximum length: the secondary index (its mapper adds a byte) fails for
+			// good at transaction 2, the primary index of the same store is not concerned
+			long := append([]byte("R"), bytes.Repeat([]byte{'p'}, g.sc.MaxKeyLen-1)...)
+			set := func(k []byte, v string) Tx { return Tx{Es: []Entry{{Key: k, Val: []byte(v)}}} }
+			script = []Tx{set([]byte("Rk"), "a"), set(long, "b"), set([]byte("Rk"), "c"), set(long, "")}
+		}
 		if !rs.det {
 			g.sc.Adaptive, g.sc.BulkTO = false, 10*time.Millisecond
 		}
@@ -433,7 +441,7 @@ func runHistory1(r *sink, rs runSpec, bucketPrefix string) error {
 	ntx := 8 + rng.Intn(28)
 	nb := 1 + rng.Intn(4)
 	if script != nil {
-		ntx, nb = len(script), 1+(rs.directed-1)/3
+		ntx, nb = len(script), 1+((rs.directed-1)/3)%2
 	}
 	var batches []int
 	var unexp unexpected
@@ -494,20 +502,52 @@ func runHistory1(r *sink, rs runSpec, bucketPrefix string) error {
 		case rs.det:
 			s.st.VerifResumeIndexing()
 		}
+		// an index whose mapped keys exceed the maximum key length fails for good (BulkInsert
+		// rejects the key) and never reaches the transaction; the other indexes of the store are
+		// not concerned: the outcome is decided per index
+		expect := map[string]bool{}
 		expectStall := false
 		for _, c := range g.idxs {
 			for i := range s.h {
 				for j := range s.h[i].Es {
 					if e := &s.h[i].Es[j]; indexable(c, e) && len(tkey(c, e)) > g.sc.MaxKeyLen {
+						expect[c.Name] = true
 						expectStall = true
 					}
 				}
 			}
 		}
+		stalledIdx := map[string]bool{}
 		if expectStall {
-			stalled = !s.waitIndexed(last, 3*time.Second)
+			s.waitIndexed(last, 3*time.Second)
+			for _, c := range g.idxs {
+				ts, err := s.st.VerifIndexTs(c.TP)
+				if err != nil {
+					return fmt.Errorf("index ts: %w", err)
+				}
+				if expect[c.Name] {
+					stalledIdx[c.Name] = ts < last
+				} else if ts < last {
+					// not expected to fail: give it the time it needs
+					ctx, cancel := context.WithTimeout(s.ctx, 180*time.Second)
+					sn, err := s.st.SnapshotMustIncludeTxID(ctx, c.TP, last)
+					cancel()
+					if err != nil {
+						stalledIdx[c.Name] = true
+					} else {
+						sn.Close()
+					}
+				}
+			}
 		} else if !s.waitIndexed(last, 180*time.Second) {
-			stalled = true
+			for _, c := range g.idxs {
+				if ts, err := s.st.VerifIndexTs(c.TP); err != nil || ts < last {
+					stalledIdx[c.Name] = true
+				}
+			}
+		}
+		for _, v := range stalledIdx {
+			stalled = stalled || v
 		}
 		// ---- reads
 		var snaps = map[string]*store.Snapshot{}
@@ -515,6 +555,7 @@ func runHistory1(r *sink, rs runSpec, bucketPrefix string) error {
 			aff, ftext := affected(rs.flags, c, g.sc.MaxBulk, g.noExp)
 			ix := buildRef(c, s.h, len(s.h))
 			var qos []QO
+			stalled := stalledIdx[c.Name] // of THIS index (shadows the store-wide flag)
 			if !stalled {
 				snap, err := s.st.SnapshotMustIncludeTxID(s.ctx, c.TP, last)
 				if err != nil {
@@ -546,9 +587,9 @@ func runHistory1(r *sink, rs runSpec, bucketPrefix string) error {
 					}
 				}
 			} else {
-				if !expectStall && !said["stall"] {
+				if !expect[c.Name] && !said["stall"] {
 					said["stall"] = true
-					r.Finding(fmt.Sprintf("indexing stalled: index did not reach tx %d within 180s [replay seed=%d det=%v maxbulk=%d batches=%v]",
+					r.Finding(fmt.Sprintf("indexing stalled: index "+c.Name+" did not reach tx %d within 180s [replay seed=%d det=%v maxbulk=%d batches=%v]",
 						last, rs.seed, rs.det, g.sc.MaxBulk, batches))
 				}
 			}
@@ -864,7 +905,7 @@ func Gen(r *vk.Run, n int) error {
 	}
 	// the directed histories (delete / re-insert patterns of an injective index), always, first
 	var dir []runSpec
-	for k := 1; k <= 6; k++ {
+	for k := 1; k <= 8; k++ {
 		dir = append(dir, runSpec{directed: k, seed: int64(1000 + k), det: (k-1)%3 != 2, flags: flags})
 	}
 	specs = append(dir, specs...)
